@@ -239,6 +239,13 @@ def run_check(mod, ctx, t0):
                 proof_problems.append({'what': 'leanchecker', 'detail': out3[-1500:]})
     obligations = thms
 
+    # model functions that deliberately have no correspondence operation: `-- no correspondence: <names>: <reason>` lines in
+    # the Lean sources the property's modules import; listed in the evidence (audit item 35)
+    try:
+        ctx.extra['no_correspondence'] = common.no_correspondence_marks(props_modules)
+    except Exception as e:
+        ctx.notes.append('no-correspondence scan failed: %s' % e)
+
     # 4 correspondence + property oracles (always run: it is also the search for a failing input)
     mod.correspond(ctx)
 
@@ -320,6 +327,12 @@ def run_check(mod, ctx, t0):
     if ctx.thorough:
         # recorded signatures of this property that no input of this run hit (candidates for removal; never an alarm)
         coverage['stale_findings'] = sorted(sig for sig in ctx.known_idx if sig not in ctx.known_hits)
+    if common.DRIVER_BAD['count']:
+        coverage['driver_bad_arguments'] = common.DRIVER_BAD
+        ctx.notes.append('the model driver answered err:BadArg / err:Panic on %d operation line(s) (malformed numeric field)'
+                         % common.DRIVER_BAD['count'])
+    if common.ERR_OTHER:
+        coverage['err_other_types'] = dict(sorted(common.ERR_OTHER.items()))
     coverage.update(ctx.extra)
     if level == 'translation_validation':
         coverage.setdefault('programs', ctx.evaluations)
